@@ -6,4 +6,7 @@ mkdir -p tlc/classes work evidence
 javac -cp /opt/veriftools/tla/tla2tools.jar -d tlc/classes tlc/BigNat.java
 [ -f harness/Cargo.lock ] || cp /repo/Cargo.lock harness/Cargo.lock
 (cd harness && CARGO_NET_OFFLINE=true cargo build --release --offline)
+# warm the script-generation caches (TLC evaluates the specification only; nothing here touches the
+# code under test beyond building the harness)
+./check pregen
 echo setup ok
